@@ -8,66 +8,147 @@ from dep import strip
 import bbs_tables as T
 
 
-def writer_layout(ctx, cfg, fn, buf_name='bytes'):
-    """ordered list of (what, width) appended to the output buffer of a to_bytes function.
-    what = field name (from the value-dependence of the appended operand); width = constant or ('each', n, collection)."""
+def _array_literal_ops(zf, op, depth=0):
+    """operands of the array literal behind an iterated operand (`[a, b, c].iter()`, `[&x, &y]` passed by value), or None"""
+    if op['k'] not in ('copy', 'move') or depth > 8:
+        return None
+    pl = op['pl']
+    if any(q['k'] != 'deref' for q in pl.get('p', [])):
+        return None
+    d = zf.single_def(pl['l'])
+    if d is None:
+        return None
+    if d[0] == 'assign' and not d[2]['dst'].get('p'):
+        rv = d[2]['rv']
+        if rv['k'] == 'agg' and rv.get('ak') == 'array':
+            return rv['ops']
+        if rv['k'] in ('use', 'cast') and rv['op']['k'] in ('copy', 'move'):
+            return _array_literal_ops(zf, rv['op'], depth + 1)
+        if rv['k'] in ('ref', 'rawptr'):
+            return _array_literal_ops(zf, {'k': 'copy', 'pl': rv['pl']}, depth + 1)
+        return None
+    if d[0] == 'call' and d[2]['args'] and (d[2].get('callee') or '') in (
+            'core::slice::<impl [T]>::iter', 'std::iter::IntoIterator::into_iter', 'core::array::<impl [T; N]>::iter', 'std::iter::Iterator::copied',
+            'std::iter::Iterator::cloned', 'core::array::<impl [T; N]>::as_slice'):
+        return _array_literal_ops(zf, d[2]['args'][0], depth + 1)
+    return None
+
+
+def _append_events(ctx, cfg, fn, root, _depth=0):
+    """ordered (atoms, width, kind) appended to the byte buffer held in local `root` of fn; atoms in fn's own parameter terms.
+    kind 'append' = once, 'each' = once per element of the container the atoms name.  Forms: extend_from_slice, for_each / extend(flat_map)
+    over a container or over an array literal (expanded element by element), and local helpers that take the buffer by `&mut`."""
     prog, eng, za = ctx.prog(cfg), ctx.eng(cfg), ctx.zone(cfg)
-    b = prog.bodies.get(fn)
-    if b is None:
-        raise AnchorMissing(fn)
+    b = prog.bodies[fn]
     fd = eng.fndep(fn)
-    zf = za.zf(fn)
     za.summary(fn)
+    zf = za.zf(fn)
     mf = MustFlow(eng, fd)
-    roots = [l for l, loc in enumerate(b.locals) if loc.get('name') == buf_name and l > b.arg_count]
-    if not roots:
-        raise AnchorMissing('%s: no buffer %s' % (fn, buf_name))
-    root = roots[0]
     ret_block = b.exits[0] if b.exits else None
     out = []
+
+    def closure_width(cpath):
+        cb = prog.bodies.get(cpath)
+        if cb is None:
+            return '?'
+        czf = za.zf(cb.path)
+        za.summary(cb.path)
+        ws = []
+        for bi, ct in cb.calls():
+            if (ct.get('callee') or '') == 'std::vec::Vec::<T, A>::extend_from_slice' and ct['args'][1]['k'] in ('copy', 'move'):
+                ws.append(czf.len_of_place(ct['args'][1]['pl']))
+        if len(ws) == 1 and ws[0] is not None:
+            return tfmt(ws[0])
+        return '?'
+
+    def per_element(iter_op, width, atoms):
+        """events for `width` octets appended per item of iter_op"""
+        lit = _array_literal_ops(zf, iter_op)
+        if lit is not None:
+            for o in lit:
+                out.append((set(fd.read_op(o)), width, 'append'))
+        else:
+            out.append((atoms, width, 'each'))
+
     for e in mf.ordered_events(root, ret_block):
         if e['kind'] != 'mutarg':
             continue
         t = e['call']
         cal = t.get('callee') or ''
-        fields = sorted({strip(a)[2][-1] for a in mf.event_atoms(e) if strip(a)[0] == 'p' and strip(a)[2]})
+        atoms = {a for a in mf.event_atoms(e) if strip(a)[0] == 'p'}
         if cal == 'std::vec::Vec::<T, A>::extend_from_slice':
             ln = zf.len_of_place(t['args'][1]['pl']) if t['args'][1]['k'] in ('copy', 'move') else None
-            out.append((fields, tfmt(ln) if ln is not None else '?', 'append'))
+            out.append((atoms, tfmt(ln) if ln is not None else '?', 'append'))
         elif cal == 'std::iter::Iterator::for_each':
-            # closure appends once per element
             ci = None
             for a in t['args']:
                 if a['k'] in ('copy', 'move') and not a['pl'].get('p'):
                     ci = fd._closure_info(a['pl']['l']) or ci
-            width = '?'
-            if ci:
-                cb = prog.bodies.get(ci[0])
-                if cb is not None:
-                    czf = za.zf(cb.path)
-                    za.summary(cb.path)
-                    ws = []
-                    for bi, ct in cb.calls():
-                        if (ct.get('callee') or '') == 'std::vec::Vec::<T, A>::extend_from_slice' and ct['args'][1]['k'] in ('copy', 'move'):
-                            ws.append(czf.len_of_place(ct['args'][1]['pl']))
-                    if len(ws) == 1 and ws[0] is not None:
-                        width = tfmt(ws[0])
-            out.append((fields, width, 'each'))
+            per_element(t['args'][0], closure_width(ci[0]) if ci else '?', atoms)
         elif cal in ('std::iter::Extend::extend', 'std::vec::Vec::<T, A>::extend') and len(t['args']) == 2 and t['args'][1]['k'] in ('copy', 'move'):
-            # buf.extend(coll.iter().flat_map(|x| x.to_bytes())): one fixed-size encoding per element
             width = '?'
             oc = zf._origin_call(t['args'][1]['pl']['l']) if not t['args'][1]['pl'].get('p') else None
+            src = None
             if oc and (oc[1].get('callee') or '') == 'std::iter::Iterator::flat_map' and len(oc[1]['args']) == 2 and oc[1]['args'][1]['k'] in ('copy', 'move'):
                 ci = fd._closure_info(oc[1]['args'][1]['pl']['l'])
                 if ci and ci[0] in prog.bodies:
                     n = parse_array_len(prog.bodies[ci[0]].local_ty(0))
                     if n is not None:
                         width = n
-            out.append((fields, width, 'each' if width != '?' else 'extend'))
+                src = oc[1]['args'][0]
+            if width != '?' and src is not None:
+                per_element(src, width, atoms)
+            else:
+                out.append((atoms, '?', 'extend'))
         elif cal in ('std::vec::Vec::<T, A>::reserve', 'std::vec::Vec::<T, A>::reserve_exact'):
             continue
         else:
-            out.append((fields, '?', cal.split('::')[-1]))
+            tgt = local_target(eng, t)
+            sub = None
+            if tgt is not None and tgt != fn and _depth < 3:
+                # a local helper that receives the buffer by `&mut`: its own append events, instantiated with this call's arguments
+                kbuf = None
+                for k, a in enumerate(t['args']):
+                    if a['k'] in ('copy', 'move') and fd.resolve_place(a['pl'])[0] == root:
+                        kbuf = k
+                if kbuf is not None:
+                    sub = _append_events(ctx, cfg, tgt, kbuf + 1, _depth + 1)
+            if sub is None:
+                out.append((atoms, '?', cal.split('::')[-1]))
+                continue
+            cb = prog.bodies[tgt]
+            for (sat, w, kind) in sub:
+                pks = {strip(x)[1] for x in sat if strip(x)[0] == 'p'}
+                lit = None
+                if kind == 'each' and len(pks) == 1:
+                    k = next(iter(pks))
+                    if 0 < k <= len(t['args']):
+                        lit = _array_literal_ops(zf, t['args'][k - 1])
+                if lit is not None:
+                    for o in lit:
+                        out.append((set(fd.read_op(o)), w, 'append'))
+                else:
+                    inst = set()
+                    for x in sat:
+                        inst |= {y for y in fd._inst_atom(x, t['args']) if strip(y)[0] == 'p'}
+                    out.append((inst, w, kind))
+    return out
+
+
+def writer_layout(ctx, cfg, fn, buf_name='bytes'):
+    """ordered list of (fields, width, kind) appended to the output buffer of a to_bytes function.
+    fields = names of the fields of `self` the appended octets are computed from; width = octets per append; kind = 'append' | 'each'."""
+    prog = ctx.prog(cfg)
+    b = prog.bodies.get(fn)
+    if b is None:
+        raise AnchorMissing(fn)
+    roots = [l for l, loc in enumerate(b.locals) if loc.get('name') == buf_name and l > b.arg_count]
+    if not roots:
+        raise AnchorMissing('%s: no buffer %s' % (fn, buf_name))
+    out = []
+    for atoms, w, kind in _append_events(ctx, cfg, fn, roots[0]):
+        fields = sorted({strip(a)[2][-1] for a in atoms if strip(a)[0] == 'p' and strip(a)[2]})
+        out.append((fields, w, kind))
     return out
 
 
